@@ -37,7 +37,7 @@ func init() {
 		MinDistinct: floor(3000, 15000),
 		RequiredCells: func(string) []string {
 			cells := []string{"A/zones", "B/long-chain", "B/far-bound", "B/near-bound", "A/inside", "A/before-nbf", "A/after-exp", "A/on-bound", "A/decoded", "A/constructed", "A/delegation", "A/invocation", "A/exp<nbf", "A/far-future-bound", "A/decoded-from-signed-payload",
-				"B/all-valid", "B/expired@inv", "C/before/inside", "C/before/outside", "C/after/inside", "C/after/outside", "C/later/outside", "C/after/chain/exp@leaf/first-call-after-silence", "C/after/IsValidNow/dlg-exp/first-call-after-silence", "C/after/chain/exp@inv/first-call-after-silence"}
+				"B/all-valid", "B/expired@inv", "A2/requested-vs-reported", "A2/chain/notyet", "A2/chain/valid", "C/before/inside", "C/before/outside", "C/after/inside", "C/after/outside", "C/later/outside", "C/after/chain/exp@leaf/first-call-after-silence", "C/after/IsValidNow/dlg-exp/first-call-after-silence", "C/after/chain/exp@inv/first-call-after-silence"}
 			for _, pos := range []string{"first", "middle", "last", "only"} {
 				cells = append(cells, "B/expired@"+pos, "B/notyet@"+pos)
 			}
@@ -341,6 +341,8 @@ func runC04(w *mon.W) {
 		}
 	}
 
+	c04Requested(w)
+
 	// ---- B: chains
 	total := w.Share(w.Pick(8000, 60000))
 	for it := 0; it < total; it++ {
@@ -623,6 +625,99 @@ func c04Transitions(w *mon.W) {
 		// and the same calls once more, now that the clock-reading code is warm again
 		for pos := range items {
 			probe("later", pos+len(items), items[(pos+rot)%len(items)])
+		}
+	}
+}
+
+// c04Requested (part A2): the window a token reports is the window its maker asked for. Bounds
+// are handed to the constructors as instants expressed in several locations (UTC, far east,
+// far west with a half-hour offset, a named zone with daylight saving) - the same instant,
+// other wall clocks: the reported bound must be that instant (to the second), as constructed
+// and after seal / unseal, and a chain whose link is not yet active by hours must be denied
+// whatever location the bound was written in.
+func c04Requested(w *mon.W) {
+	r := w.Rng
+	cmd := command.MustParse("/a")
+	zones := []*time.Location{time.UTC, time.FixedZone("east", 14*3600), time.FixedZone("west", -12*3600+1800), time.FixedZone("plus2", 2*3600), time.FixedZone("minus5", -5*3600)}
+	if ny, err := time.LoadLocation("America/New_York"); err == nil {
+		zones = append(zones, ny)
+	}
+	offs := []time.Duration{2 * time.Hour, 30 * time.Hour, 400 * 24 * time.Hour}
+	same := func(got *time.Time, want time.Time) bool {
+		if got == nil {
+			return false
+		}
+		d := got.Sub(want)
+		return d > -time.Second && d < time.Second
+	}
+	idx := 0
+	for zi, z := range zones {
+		for _, off := range offs {
+			idx++
+			if !w.Mine(idx) {
+				continue
+			}
+			now := time.Now()
+			exp, nbf := now.Add(off).In(z), now.Add(off/2).In(z) // (the constructors refuse a not-before in the past)
+			iss, aud := gen.Ed(idx), gen.Ed(idx+1)
+			d, err := delegation.New(iss.DID, aud.DID, cmd, policy.Policy{}, delegation.WithSubject(iss.DID), delegation.WithExpiration(exp), delegation.WithNotBefore(nbf))
+			if err != nil {
+				w.Inconclusive("C04 A2 delegation: " + err.Error())
+				continue
+			}
+			w.Cover("A2/requested-vs-reported")
+			w.Cover(fmt.Sprintf("A2/zone-%d", zi))
+			desc := fmt.Sprintf("delegation WithExpiration(%s) WithNotBefore(%s)", exp.Format(time.RFC3339), nbf.Format(time.RFC3339))
+			check := func(state string, gnbf, gexp *time.Time) {
+				w.Eval(1)
+				w.Distinct("A2", state, z.String(), off)
+				if !same(gexp, exp) || !same(gnbf, nbf) {
+					w.Violate("A2/reported-window-differs-from-requested/delegation/"+state, fmt.Sprintf("%s: the %s token reports [%s, %s]", desc, state, fmtT(gnbf), fmtT(gexp)),
+						map[string]any{"token": desc, "location": z.String(), "requested_nbf_utc": nbf.UTC().Format(time.RFC3339), "requested_exp_utc": exp.UTC().Format(time.RFC3339), "reported_nbf": fmtT(gnbf), "reported_exp": fmtT(gexp)})
+				}
+			}
+			check("constructed", d.NotBefore(), d.Expiration())
+			if sealed, _, err := d.ToSealed(iss.Priv); err == nil {
+				if d2, _, err := delegation.FromSealed(sealed); err == nil {
+					check("decoded", d2.NotBefore(), d2.Expiration())
+				}
+			}
+			inv, err := invocation.New(iss.DID, iss.DID, cmd, nil, invocation.WithExpiration(exp), invocation.WithInvokedAt(nbf))
+			if err == nil {
+				w.Eval(1)
+				if !same(inv.Expiration(), exp) || !same(inv.InvokedAt(), nbf) {
+					w.Violate("A2/reported-window-differs-from-requested/invocation/constructed", fmt.Sprintf("invocation WithExpiration(%s) WithInvokedAt(%s) reports exp=%s iat=%s", exp.Format(time.RFC3339), nbf.Format(time.RFC3339), fmtT(inv.Expiration()), fmtT(inv.InvokedAt())),
+						map[string]any{"location": z.String(), "requested_exp_utc": exp.UTC().Format(time.RFC3339)})
+				}
+			}
+			// chains: one link not yet active (by `off`), its bound written in location z; then one
+			// link expiring in `off`, which must not matter
+			n := 1 + r.IntN(3)
+			for _, kind := range []string{"notyet", "valid"} {
+				s := chain.Conformant(r, n, 5)
+				k := r.IntN(n)
+				if kind == "notyet" {
+					s.Links[k].NbfAbs = chain.T(now.Add(off).In(z))
+				} else {
+					s.Links[k].ExpAbs = chain.T(now.Add(off).In(z))
+				}
+				b, err := s.Build(r)
+				if err != nil {
+					w.Inconclusive("C04 A2 chain: " + err.Error())
+					continue
+				}
+				e := b.Inv.ExecutionAllowed(b.Loader)
+				w.Eval(1)
+				w.Cover("A2/chain/" + kind)
+				if kind == "notyet" && e == nil {
+					dd := s.Describe()
+					dd["location"] = z.String()
+					w.Violate("A2/chain-allowed-before-requested-not-before", fmt.Sprintf("ExecutionAllowed = nil although link %d was built with WithNotBefore(%s), %s from now", k, now.Add(off).In(z).Format(time.RFC3339), off), dd)
+				}
+				if kind == "valid" && e != nil {
+					w.Count("conforming_but_denied(judged_by_C05)", 1)
+				}
+			}
 		}
 	}
 }
